@@ -126,7 +126,10 @@ def check_format(prog, src, width, res, desc, family):
                               'luafmt of %r gives %r: code following the line-scoped construct joined its line' % (src, out),
                               case)
                 return None
-    # token count reported by stats
+    # token count reported by stats (needs a full re-parse of the output: only on the base layouts)
+    if desc not in ('default', 'lines', 'tight', 'degenerate', 'replay', 'no-final-newline'):
+        res.outcome((tail, desc, width))
+        return out
     try:
         n_in = obj.get_token_count()
         n_out = lua.Lua.from_lines([out], version=8).get_token_count()
